@@ -645,3 +645,252 @@ Lemma keys_pair : forall (pub : sk -> pk) (dh : sk -> pk -> secret),
 Proof.
   intros pub dh Hdh a b. eexists. eexists. simpl. repeat split. rewrite (Hdh b a). reflexivity.
 Qed.
+
+(* ================================================================== the keyring as a mutable object *)
+Section History.
+  (* ---- a use never changes what later steps see ---- *)
+  Lemma run_history_ring : forall {X} (steps : list (kstep X)) r,
+    fst (run_history r steps) = apply_sets r (sets_of steps).
+  Proof.
+    intros X steps. induction steps as [|[u k|f] rest IH]; intro r; simpl; [reflexivity | apply IH |].
+    specialize (IH r). destruct (run_history r rest) as [r' xs]. exact IH.
+  Qed.
+
+  Fixpoint uses_in {X} (steps : list (kstep X)) : nat :=
+    match steps with [] => 0 | KSet _ _ :: r => uses_in r | KUse _ :: r => S (uses_in r) end.
+
+  (* the result of a use = the function applied to the ring made by the set_key calls BEFORE it — whatever was
+     looked up, encoded or decoded earlier *)
+  Lemma run_history_use : forall {X} (pre : list (kstep X)) f post r,
+    exists xs ys, snd (run_history r ((pre ++ KUse f :: post)%list)) = (xs ++ f (apply_sets r (sets_of pre)) :: ys)%list
+                  /\ List.length xs = uses_in pre.
+  Proof.
+    intros X pre f post. induction pre as [|[u k|g] rest IH]; intro r; simpl.
+    - destruct (run_history r post) as [r' ys]. exists [], ys. split; reflexivity.
+    - apply IH.
+    - destruct (IH r) as (xs & ys & E & L). destruct (run_history r ((rest ++ KUse f :: post)%list)) as [r' zs].
+      simpl in E. exists (g r :: xs), ys. split; [simpl; rewrite E; reflexivity | simpl; rewrite L; reflexivity].
+  Qed.
+
+  (* ---- what the trie holds after a history of set_key calls ---- *)
+  Lemma aget_in : forall {A} p (k : A) t, aget String.eqb p t = Some k -> In (p, k) t.
+  Proof.
+    intros A p k t. induction t as [|[p' k'] r IH]; simpl; [discriminate|].
+    destruct (String.eqb p p') eqn:E.
+    - intro H. inversion H. apply String.eqb_eq in E. subst. left. reflexivity.
+    - intro H. right. apply IH. exact H.
+  Qed.
+
+  Lemma in_aget : forall {A} p (k : A) t, NoDup (map fst t) -> In (p, k) t -> aget String.eqb p t = Some k.
+  Proof.
+    intros A p k t. induction t as [|[p' k'] r IH]; simpl; intros Hnd Hin; [contradiction|].
+    inversion Hnd as [|? ? Hnot Hnd']; subst.
+    destruct Hin as [E | Hin].
+    - inversion E; subst. rewrite String.eqb_refl. reflexivity.
+    - destruct (String.eqb p p') eqn:E.
+      + apply String.eqb_eq in E. subst p'. exfalso. apply Hnot. apply (in_map fst) in Hin. exact Hin.
+      + apply IH; assumption.
+  Qed.
+
+  Lemma keys_aset : forall {A} u (k : A) t x, In x (map fst (aset String.eqb u k t)) <-> x = u \/ In x (map fst t).
+  Proof.
+    intros A u k t x. induction t as [|[p' k'] r IH]; simpl.
+    - split; [intros [E|[]]; left; symmetry; exact E | intros [E|[]]; left; symmetry; exact E].
+    - destruct (String.eqb u p') eqn:E; simpl.
+      + apply String.eqb_eq in E. subst p'. split; [intros [H|H]; [left; symmetry; exact H | right; right; exact H] |
+          intros [H|[H|H]]; [left; symmetry; exact H | left; exact H | right; exact H]].
+      + rewrite IH. tauto.
+  Qed.
+
+  Lemma nodup_aset : forall {A} u (k : A) t, NoDup (map fst t) -> NoDup (map fst (aset String.eqb u k t)).
+  Proof.
+    intros A u k t. induction t as [|[p' k'] r IH]; simpl; intro H.
+    - constructor; [intros [] | constructor].
+    - inversion H as [|? ? Hnot Hnd]; subst. destruct (String.eqb u p') eqn:E; simpl.
+      + constructor; assumption.
+      + constructor; [|apply IH; exact Hnd]. intro Hin. apply keys_aset in Hin. destruct Hin as [E'|Hin].
+        * subst p'. rewrite String.eqb_refl in E. discriminate.
+        * apply Hnot. exact Hin.
+  Qed.
+
+  Lemma keys_adel : forall {A} u (t : list (string * A)) x, In x (map fst (adel String.eqb u t)) -> In x (map fst t).
+  Proof.
+    intros A u t x. induction t as [|[p' k'] r IH]; simpl; [tauto|].
+    destruct (String.eqb u p'); simpl; [intro H; right; apply IH; exact H | intros [H|H]; [left; exact H | right; apply IH; exact H]].
+  Qed.
+
+  Lemma nodup_adel : forall {A} u (t : list (string * A)), NoDup (map fst t) -> NoDup (map fst (adel String.eqb u t)).
+  Proof.
+    intros A u t. induction t as [|[p' k'] r IH]; simpl; intro H; [constructor|].
+    inversion H as [|? ? Hnot Hnd]; subst. destruct (String.eqb u p'); simpl; [apply IH; exact Hnd|].
+    constructor; [|apply IH; exact Hnd]. intro Hin. apply Hnot. apply (keys_adel u r p'). exact Hin.
+  Qed.
+
+  (* invariant of every ring reachable by set_key: unique prefixes, never the empty one in the trie *)
+  Definition ring_wf (r : keyring) : Prop := NoDup (map fst (kr_trie r)) /\ ~ In "" (map fst (kr_trie r)).
+
+  Lemma set_key_wf : forall r u k, ring_wf r -> ring_wf (set_key r u k).
+  Proof.
+    intros r u k [H1 H2]. unfold set_key. destruct (String.eqb u "") eqn:E; [split; assumption|].
+    destruct k as [k'|]; simpl; split.
+    - apply nodup_aset; exact H1.
+    - intro Hin. apply keys_aset in Hin. destruct Hin as [E'|Hin]; [subst u; rewrite String.eqb_refl in E; discriminate | exact (H2 Hin)].
+    - apply nodup_adel; exact H1.
+    - intro Hin. apply H2. apply (keys_adel u _ ""). exact Hin.
+  Qed.
+
+  Lemma apply_sets_wf : forall sets r, ring_wf r -> ring_wf (apply_sets r sets).
+  Proof.
+    induction sets as [|[u k] rest IH]; intros r H; simpl; [exact H|]. apply IH. apply set_key_wf. exact H.
+  Qed.
+
+  Lemma empty_wf : ring_wf empty_ring.
+  Proof. split; [constructor | intros []]. Qed.
+
+  (* the trie entry of a prefix = its LAST set_key *)
+  Lemma trie_fold : forall sets r p, p <> "" ->
+    aget String.eqb p (kr_trie (apply_sets r sets)) =
+    fold_left (fun acc '(u, k) => if String.eqb u p then k else acc) sets (aget String.eqb p (kr_trie r)).
+  Proof.
+    induction sets as [|[u k] rest IH]; intros r p Hp; simpl; [reflexivity|].
+    rewrite (IH (set_key r u k) p Hp). f_equal.
+    unfold set_key. destruct (String.eqb u "") eqn:E0.
+    - apply String.eqb_eq in E0. subst u. simpl.
+      destruct p; [congruence | reflexivity].
+    - destruct (String.eqb u p) eqn:E.
+      + apply String.eqb_eq in E. subst u. destruct k as [k'|]; simpl.
+        * apply (aget_aset_same String.eqb Seqb_spec).
+        * apply (aget_adel_same String.eqb).
+      + assert (E' : String.eqb p u = false) by (rewrite String.eqb_sym; exact E).
+        destruct k as [k'|]; simpl.
+        * apply (aget_aset_other String.eqb Seqb_spec). exact E'.
+        * apply (aget_adel_other String.eqb Seqb_spec). exact E'.
+  Qed.
+
+  Lemma trie_binding : forall sets p, p <> "" ->
+    aget String.eqb p (kr_trie (apply_sets empty_ring sets)) = binding sets p.
+  Proof. intros sets p Hp. rewrite (trie_fold sets empty_ring p Hp). reflexivity. Qed.
+
+  Lemma default_fold : forall sets r,
+    kr_default (apply_sets r sets) = fold_left (fun acc '(u, k) => if String.eqb u "" then k else acc) sets (kr_default r).
+  Proof.
+    induction sets as [|[u k] rest IH]; intro r; simpl; [reflexivity|].
+    rewrite (IH (set_key r u k)). f_equal. unfold set_key.
+    destruct (String.eqb u ""); [reflexivity | destruct k; reflexivity].
+  Qed.
+
+  Lemma default_binding : forall sets, kr_default (apply_sets empty_ring sets) = binding sets "".
+  Proof. intro sets. rewrite default_fold. reflexivity. Qed.
+
+  (* ---- lookup after ANY history = longest-prefix lookup in the CURRENT bindings ---- *)
+  Lemma lookup_history : forall sets uri p k,
+    p <> "" -> binding sets p = Some k -> String.prefix p uri = true ->
+    (forall p', p' <> "" -> p' <> p -> binding sets p' <> None -> String.prefix p' uri = true ->
+                String.length p' < String.length p) ->
+    lookup_key (apply_sets empty_ring sets) uri = Some k.
+  Proof.
+    intros sets uri p k Hp Hb Hpre Hmax.
+    destruct (apply_sets_wf sets empty_ring empty_wf) as [Hnd Hne].
+    apply (lookup_longest (apply_sets empty_ring sets) uri p k).
+    - apply aget_in. rewrite (trie_binding sets p Hp). exact Hb.
+    - exact Hpre.
+    - intros p' k' Hin Hpre'.
+      assert (Hp' : p' <> "") by (intro E; subst p'; apply Hne; apply (in_map fst) in Hin; exact Hin).
+      pose proof (in_aget p' k' _ Hnd Hin) as Hg. rewrite (trie_binding sets p' Hp') in Hg.
+      destruct (String.eqb p' p) eqn:E.
+      + apply String.eqb_eq in E. subst p'. left. split; [reflexivity|]. rewrite Hb in Hg. inversion Hg. reflexivity.
+      + right. apply Hmax; try assumption.
+        * intro E'. subst p'. rewrite String.eqb_refl in E. discriminate.
+        * rewrite Hg. discriminate.
+  Qed.
+
+  Lemma lookup_history_default : forall sets uri,
+    (forall p, p <> "" -> binding sets p <> None -> String.prefix p uri = false) ->
+    lookup_key (apply_sets empty_ring sets) uri = binding sets "".
+  Proof.
+    intros sets uri H. rewrite <- default_binding. apply lookup_default.
+    intros p k Hin.
+    destruct (apply_sets_wf sets empty_ring empty_wf) as [Hnd Hne].
+    assert (Hp : p <> "") by (intro E; subst p; apply Hne; apply (in_map fst) in Hin; exact Hin).
+    apply H; [exact Hp|]. rewrite <- (trie_binding sets p Hp). rewrite (in_aget p k _ Hnd Hin). discriminate.
+  Qed.
+End History.
+
+(* the session theorems lifted to keyrings that were mutated at will before the message *)
+Section HistoryLifted.
+  Variables V P C nonce : Type.
+  Variable seal : secret -> nonce -> P -> C.
+  Variable open : secret -> C -> option P.
+  Variable dumps : envelope V -> option P.
+  Variable loads : P -> option (envelope V).
+  Hypothesis AEAD : aead_ok seal open.
+  Hypothesis JSON : json_ok dumps loads.
+
+  (* "the key that currently applies to uri is k" *)
+  Definition current_key (sets : list (string * option key)) (uri : string) (k : key) : Prop :=
+    (exists p, p <> "" /\ binding sets p = Some k /\ String.prefix p uri = true /\
+               forall p', p' <> "" -> p' <> p -> binding sets p' <> None -> String.prefix p' uri = true ->
+                          String.length p' < String.length p)
+    \/ ((forall p, p <> "" -> binding sets p <> None -> String.prefix p uri = false) /\ binding sets "" = Some k).
+
+  Lemma current_key_lookup : forall sets uri k, current_key sets uri k ->
+    lookup_key (apply_sets empty_ring sets) uri = Some k.
+  Proof.
+    intros sets uri k [(p & H1 & H2 & H3 & H4) | [H1 H2]].
+    - apply (lookup_history sets uri p k); assumption.
+    - rewrite (lookup_history_default sets uri H1). exact H2.
+  Qed.
+
+  (* no clear payload once a key applies — no matter what was sent for this URI before the key was installed *)
+  Lemma no_clear_after_history : forall sets uri k s a kw n b,
+    current_key sets uri k -> originator_box k = Some s ->
+    originate V P C nonce seal dumps (Some (apply_sets empty_ring sets)) uri a kw n = Sent b ->
+    exists p, dumps (Some uri, Some a, Some kw) = Some p /\ b = Encoded (mkEnc (seal s n p) "cryptobox" (Some "json") None).
+  Proof.
+    intros sets uri k s a kw n b Hc Hs Ho.
+    apply (originate_encrypted V P C nonce seal dumps (apply_sets empty_ring sets) uri a kw n s b); [|exact Ho].
+    unfold get_box. rewrite (current_key_lookup sets uri k Hc). exact Hs.
+  Qed.
+
+  (* exact recovery between two rings with arbitrary histories whose CURRENT keys pair up *)
+  Lemma roundtrip_after_histories : forall setsA setsB topic kA kB s a kw n b msg_topic hs,
+    current_key setsA topic kA -> originator_box kA = Some s ->
+    current_key setsB topic kB -> responder_box kB = Some s ->
+    originate V P C nonce seal dumps (Some (apply_sets empty_ring setsA)) topic a kw n = Sent b ->
+    on_topic msg_topic topic hs ->
+    dispatch_event V P C open loads (Some (apply_sets empty_ring setsB)) msg_topic b hs =
+      map (fun h => (h_id h, a, kw)) (filter h_active hs).
+  Proof.
+    intros setsA setsB topic kA kB s a kw n b msg_topic hs HA HsA HB HsB Ho Ht.
+    apply (dispatch_roundtrip V P C nonce seal open dumps loads AEAD JSON
+             (apply_sets empty_ring setsA) (apply_sets empty_ring setsB) topic a kw n s b msg_topic hs); try assumption.
+    - unfold get_box. rewrite (current_key_lookup setsA topic kA HA). exact HsA.
+    - unfold get_box. rewrite (current_key_lookup setsB topic kB HB). exact HsB.
+  Qed.
+
+  (* a ciphertext under a key that was replaced (or any other secret) is rejected by the CURRENT ring *)
+  Variable note : recv V -> V.
+  Lemma stale_key_rejected : forall sets uri k s n p n' msg_topic hs,
+    current_key sets uri k ->
+    (forall s', originator_box k = Some s' \/ responder_box k = Some s' -> s <> s') ->
+    on_topic msg_topic uri hs ->
+    let r := apply_sets empty_ring sets in
+    let e := mkEnc (seal s n p) "cryptobox" (Some "json") None in
+    dispatch_event V P C open loads (Some r) msg_topic (Encoded e) hs = [] /\
+    (exists x, on_invocation V P C nonce seal open dumps loads note (Some r) uri (Encoded e) n' =
+         ErrorReply ENC_DECRYPT_ERROR
+           (error_body V P C nonce seal dumps (Some r) ENC_DECRYPT_ERROR (Some [note (RDecryptError x)]) (Some []) n')) /\
+    on_result V P C open loads (Some r) uri false (Encoded e) = RejectedWith ENC_DECRYPT_ERROR /\
+    on_error_codec V P C open loads (Some r) uri (Encoded e) = ErrEnc ENC_DECRYPT_ERROR.
+  Proof.
+    intros sets uri k s n p n' msg_topic hs Hc Hne Ht r e.
+    assert (Hbox : forall io s', get_box r io uri = Some s' -> s <> s').
+    { intros io s' Hg. unfold get_box, r in Hg. rewrite (current_key_lookup sets uri k Hc) in Hg.
+      apply Hne. destruct io; [left | right]; exact Hg. }
+    destruct (wrong_key_never_delivered V P C nonce seal open dumps loads AEAD note r uri s n p n' Hbox)
+      as (_ & H2 & H3 & _ & H5).
+    split; [|split; [exact H2 | split; [exact H3 | exact H5]]].
+    apply (dispatch_unopenable V P C open loads r uri e msg_topic hs); [|exact Ht].
+    intros s' Hg. simpl. destruct AEAD as (_ & A2 & _). apply A2. apply (Hbox false s' Hg).
+  Qed.
+End HistoryLifted.
